@@ -206,8 +206,9 @@ def sim_as_completed(world, fs, timeout=None):
     for f in finished:
         yield f
     seen = 0
+    end = None if timeout is None else k.now + int(timeout * 1_000_000)      # CPython: one deadline for the whole iteration
     while pending:
-        ok = k.block(lambda: any(f.done() for f in pending), None if timeout is None else int(timeout * 1_000_000))
+        ok = k.block(lambda: any(f.done() for f in pending), None if end is None else max(0, end - k.now))
         if not ok:
             raise TimeoutError('%d (of %d) futures unfinished' % (len(pending), len(fs)))
         newly = sorted((f for f in pending if f.done()), key=lambda f: f.done_seq)
